@@ -9,6 +9,7 @@ Event grammar (driver body/arith.rs), all values hex bit patterns:
   mul_int a i => checked saturating wrapping overflowing plain assign int_times_fixed
   div_int a i => checked wrapping overflowing plain assign
   <op>_r a b => three by-reference spellings (+ assign-by-ref), or one P token
+  fold k x1..xk => iter::Sum over values, over references; iter::Product over values, over references
 """
 from common import Stats, lay, trunc_div, opclass, panic_text, TRIVIAL_CLASSES
 
@@ -65,15 +66,66 @@ def exact(L, op, A, B):
     raise ValueError(op)
 
 
+def fold_exact(L, xs):
+    """-> (sum or None, product or None): the running results of the left folds with + and * (floor product at every step);
+    None as soon as a running result is not representable (the plain operators promise nothing then), and for the
+    empty product on a layout that cannot represent 1"""
+    s = 0
+    for x in xs:
+        if s is not None:
+            s += x
+            if not L.fits(s):
+                s = None
+    if xs:
+        p = xs[0]
+        for x in xs[1:]:
+            if p is not None:
+                p = (p * x) >> L.f
+                if not L.fits(p):
+                    p = None
+    else:
+        p = 1 << L.f
+        if not L.fits(p):
+            p = None
+    return s, p
+
+
 class Mon(object):
     def __init__(self, prop, profile):
         self.prop = prop
         self.profile = profile
         self.st = Stats(prop, profile)
 
+    def fold_event(self, line, toks):
+        """Sum / Product are the fold spellings of + and *: C02 judges the sums, C01 and C02 the products, whenever every
+        running result is representable (otherwise the plain operators' behaviour is not pinned down)"""
+        st = self.st
+        L = lay(toks[1])
+        k = int(toks[2], 16)
+        xs = [L.val(int(t, 16)) for t in toks[3:3 + k]]
+        outs = toks[toks.index("=>") + 1:]
+        s, p = fold_exact(L, xs)
+        names = ("sum_by_value", "sum_by_ref", "product_by_value", "product_by_ref")
+        for i, (name, t) in enumerate(zip(names, outs)):
+            exact_r = s if i < 2 else p
+            if self.prop == "C01" and i < 2:
+                continue
+            st.checks += 1
+            if exact_r is None:
+                st.bump("fold_running_result_not_representable_not_judged")
+                continue
+            exp = "V:%x" % (exact_r & L.mask)
+            if t != exp:
+                kind = "panic" if t[0] == "P" else "wrong"
+                st.violation("%s:%s:%s:%s" % (self.prop, name, kind, L.family()), line,
+                             "%s of %d elements: got %s expected %s" % (name, k, panic_text(t) if t[0] == "P" else t, exp))
+        st.cover(L.name, "fold", (str(k), "s" if s is not None else "so", "p" if p is not None else "po"), k >= 2, line)
+
     def event(self, line, toks):
         st = self.st
         op = toks[0]
+        if op == "fold":
+            return self.fold_event(line, toks)
         forms = FORMS[op]
         if self.prop == "C01" and op not in C01_OPS:
             return
@@ -165,6 +217,11 @@ def allowed_checked_panics(toks):
     sanctioned (plain forms whose exact result does not fit, or zero divisor in
     a non-checked form)"""
     op = toks[0]
+    if op == "fold":
+        L = lay(toks[1])
+        k = int(toks[2], 16)
+        s, p = fold_exact(L, [L.val(int(t, 16)) for t in toks[3:3 + k]])
+        return (set() if s is not None else {0, 1}) | (set() if p is not None else {2, 3})
     forms = FORMS[op]
     L = lay(toks[1])
     sep = toks.index("=>")
